@@ -114,3 +114,84 @@ def copy_protocol_is_deep(chk, rule: str) -> None:
                        node=r, kind=f'copy-protocol:{c.name}.{name}')
     chk.units['copy_protocol_overrides'] = n
     chk.ob(rule, 'plumpy', True, f'{n} class(es) override the copy protocol; none hands back itself', kind='copy-protocol-scan', expr='copy protocol')
+
+
+def event_guard_accepts_subclasses(chk, rule: str) -> None:
+    """``@event(from_states=Waiting)`` must let the event through for every state that IS a Waiting -- the work chain's own WAITING
+    state is a subclass.  The guard that raises EventError before the wrapped method runs is therefore an isinstance test (or
+    issubclass of the state's type), not an identity / membership test on the exact class."""
+    import ast as _ast
+    from ..model import norm as _norm, walk_shallow as _ws
+    prog = chk.prog
+    tr = prog.func('base.state_machine.event.wrapper.transition')
+    ff = chk.ctx.facts.analyse(tr)
+    wrapped = [m for m in ff.cfg.nodes if m.expr() is not None and any(isinstance(c, _ast.Call) and _norm(c.func) == 'wrapped' for c in _ws(m.expr()))]
+    raises = [m for m in ff.cfg.nodes if m.kind == 'raisestmt' and 'EventError' in _norm(m.ast.exc) and wrapped and any(w.id in ff.cfg.reachable([t_], include_src=True) for w in wrapped
+              for t_ in [x for x in ff.cfg.nodes if x.kind == 'test' and m.id in ff.cfg.reachable([x])][:1])]
+    guards = [t for t in ff.cfg.nodes if t.kind == 'test' and 'from_states' in _norm(t.ast.test)]
+    ok = bool(guards) and bool(wrapped)
+    for t in guards:
+        txt = _norm(t.ast.test)
+        ok &= ('isinstance(' in txt or 'issubclass(' in txt) and 'type(' not in txt.replace('issubclass(type(', '')
+    chk.ob(rule, tr, ok, 'the from_states guard of @event is an isinstance test: an event valid in WAITING is valid in every subclass of the WAITING state '
+           '(the work chain has its own)', node=guards[0].ast if guards else None, kind='event-guard-accepts-subclasses')
+
+
+def cancellation_delivered(chk, rule: str, qual: str, out_key: str, what: str) -> None:
+    """``asyncio.CancelledError`` is a BaseException: neither ``except Exception`` nor ``kiwipy.capture_exceptions`` sees it.  In a
+    callback / coroutine whose job is to resolve the future ``out_key``, every place where a cancellation can surface -- an ``await``
+    of something, ``<future>.result()`` / ``.exception()`` not preceded by a ``cancelled()`` test that came out false -- must be inside a
+    ``try`` with a handler for CancelledError / BaseException (or bare) that resolves that future; otherwise the outcome is never
+    delivered and whoever waits on it hangs."""
+    import ast as _ast
+    from ..model import norm as _norm
+    from ..rules import last_name as _last
+    prog = chk.prog
+    f = prog.try_func(qual)
+    if f is None:
+        chk.ob(rule, qual, False, f'{qual} not found: {what} cannot be examined', kind='cancellation-delivered')
+        return
+    ff = chk.ctx.facts.analyse(f)
+
+    def resolves(stmts) -> bool:
+        for s_ in stmts:
+            for c in _ast.walk(s_):
+                if isinstance(c, _ast.Call) and isinstance(c.func, _ast.Attribute) and c.func.attr in ('cancel', 'set_exception', 'set_result') and ff.canon.key(c.func.value) == out_key:
+                    return True
+        return False
+
+    parents = {}
+    for n in _ast.walk(f.node):
+        for ch in _ast.iter_child_nodes(n):
+            parents[id(ch)] = n
+    sites = []
+    for n in _ast.walk(f.node):
+        if isinstance(n, _ast.Await):
+            sites.append((n, 'await'))
+        elif isinstance(n, _ast.Call) and isinstance(n.func, _ast.Attribute) and n.func.attr in ('result', 'exception') and not n.args:
+            recv = ff.canon.key(n.func.value)
+            nodes = ff.cfg.nodes_containing(n)
+            tested = bool(nodes) and all(('F', f'{recv}.cancelled()') in ff.at_call(m, n) for m in nodes)
+            if not tested:
+                sites.append((n, f'{recv}.{n.func.attr}()'))
+    n_ok = 0
+    for node, desc in sites:
+        covered = False
+        cur = node
+        while id(cur) in parents and not covered:
+            par = parents[id(cur)]
+            if isinstance(par, _ast.Try) and any(cur is s_ for s_ in par.body):
+                for h in par.handlers:
+                    names = ['<bare>'] if h.type is None else [_norm(x).split('.')[-1] for x in (h.type.elts if isinstance(h.type, _ast.Tuple) else [h.type])]
+                    if any(nm in ('<bare>', 'BaseException', 'CancelledError') for nm in names) and (resolves(h.body) or any(isinstance(x, _ast.Raise) and False for x in h.body)):
+                        # (kiwipy.CancelledError is the concurrent.futures one -- an Exception -- and does not count)
+                        if h.type is None or 'asyncio' in _norm(h.type) or 'BaseException' in _norm(h.type):
+                            covered = True
+            if isinstance(par, (_ast.FunctionDef, _ast.AsyncFunctionDef, _ast.Lambda)):
+                break
+            cur = par
+        n_ok += covered
+        chk.ob(rule, f, covered, f'{what}: a cancellation surfacing at {desc} ' + ('is caught and delivered through the future' if covered else
+               'is neither an Exception (so it passes except Exception / capture_exceptions) nor handled: the future is never resolved and its waiters hang'),
+               node=node, kind='cancellation-delivered')
+    chk.ob(rule, f, True, f'{what}: {len(sites)} place(s) where a cancellation can surface examined', kind='cancellation-sites')
